@@ -227,6 +227,8 @@ def run(rep, repo, tier):
                         'the reported pairs form a matching: at most one pair per student (C01)']
     from ..defined import check_defined
     check_defined(rep, repo, 'C11.R3', [repo.method('Model', 'get_results')], 'result rendering')
+    # the model whose matching is described is the one read for THIS solver object (no instance kept from an earlier one)
+    check_defined(rep, repo, 'C11.R5', [repo.method('Solver', '__init__')], 'model construction')
     from ..shapes import scatter_size_problems
     gr_ = repo.method('Model', 'get_results')
     try:
